@@ -48,6 +48,8 @@ path = os.path.join(VERIF, "harmless", "MATRIX.json" if tier == "quick" else f"M
 res = json.load(open(path)) if os.path.exists(path) and args else {}
 with cf.ThreadPoolExecutor(max_workers=jobs) as ex:
     for hid, out in ex.map(run, ids):
+        if hid in res and res[hid].get("applies") and out.get("applies"):
+            merged = dict(res[hid].get("checks", {})); merged.update(out["checks"]); out["checks"] = merged   # partial re-runs (--props) keep the other checks' results
         res[hid] = out
         bad = {k: v["exit"] for k, v in out.get("checks", {}).items() if v["exit"] != 0}
         print(hid, "applies" if out["applies"] else "NOAPPLY", bad or "all 0", flush=True)
